@@ -105,3 +105,11 @@ contract(D + 'stack_training_data_multiple_series', props=['C10', 'C07', 'C04'],
                   ("concatenation-of-the-individual-stackings", _MS_CELL.format(n="len(all_series)", res="result")),
                   ("def:sensors", "sensors(result, window_size) == all_series[0].shape[1]"),
                   "fresh(result)", "unchanged(all_series)", "forall(0, len(all_series), lambda s: unchanged(all_series[s]))"])
+
+# wrong kind of input for the joint front end (a list of 1-D arrays): data.shape[1] raises IndexError
+contract(D + 'stack_training_data#1d', props=['C20'], params=dict(data='arr1[real]', window_size='int'), returns='arr2[real]',
+         raises={'IndexError': "True"}, ensures=[])
+contract(D + 'stack_training_data_multiple_series#1d', props=['C20'],
+         params=dict(all_series='list[arr1[real]]', window_size='int'), returns='arr2[real]',
+         requires=["len(all_series) >= 1"], raises={'IndexError': "True"}, ensures=[],
+         ghost={'comps': {1: dict(kind='list[arr2[real]]', inv=["len(_comp1) == _k", "_k == 0"])}})
